@@ -38,6 +38,8 @@ pub struct Gen {
     pub nfs: usize,
     /// stack contains an overlay: avoid the preconditions of overlay known findings mostly
     pub avoid_known: bool,
+    /// percent chance that a pre-populated overlay gets a directory-over-file type conflict
+    pub sandwich_pct: u32,
 }
 
 #[derive(Clone, Copy, Debug, PartialEq)]
@@ -71,7 +73,7 @@ impl Gen {
             names[1] = "ab".into();
         }
         let depth = rng.range(2, 4);
-        Gen { rng, names, depth, next_payload: 1, domain: Domain::Contract, size_profile: 0, allow_seek: true, nfs: 1, avoid_known: false }
+        Gen { rng, names, depth, next_payload: 1, domain: Domain::Contract, size_profile: 0, allow_seek: true, nfs: 1, avoid_known: false, sandwich_pct: 15 }
     }
 
     pub fn payload(&mut self) -> Payload {
@@ -429,6 +431,31 @@ impl Gen {
                         continue;
                     }
                     self.populate(l, view, true);
+                }
+                // a shadowed type conflict: a directory of a higher layer hides a same-named FILE
+                // of a deeper layer (the union is still well defined: the first layer decides the
+                // type, directories merge the children of all layers that hold a directory)
+                if n >= 2 && self.sandwich_pct > 0 && self.rng.pct(self.sandwich_pct) {
+                    let views: Vec<crate::model::Model> = layers.iter().map(|l| l.view()).collect();
+                    let mut cands: Vec<(String, usize)> = vec![];
+                    for (d, is_file) in view {
+                        if *is_file {
+                            continue;
+                        }
+                        if let Some(i) = views.iter().position(|v| v.exists(d)) {
+                            for j in (i + 1)..n {
+                                if !views[j].exists(d) && matches!(layers[j], Spec::Mem { .. } | Spec::Phys { .. } | Spec::Alt { .. }) {
+                                    cands.push((d.clone(), j));
+                                }
+                            }
+                        }
+                    }
+                    if !cands.is_empty() {
+                        let (d, j) = cands[self.rng.below(cands.len())].clone();
+                        let mut v: Vec<(String, bool)> = crate::model::ancestors(&d).into_iter().filter(|a| !a.is_empty() && !views[j].exists(a)).map(|a| (a, false)).collect();
+                        v.push((d, true));
+                        self.populate(&mut layers[j], &v, false);
+                    }
                 }
             }
             Spec::OvlSub { base, dirs } => {
